@@ -554,9 +554,12 @@ def _paths(fn, facts):
     results = []
 
     def ev(test):
-        t = " ".join(src(test).split())
+        from .c16 import _canon_test
+        t = _canon_test(test)
         if t in facts:
             return facts[t]
+        if t.startswith("not ") and t[4:] in facts:
+            return not facts[t[4:]]
         if isinstance(test, ast.UnaryOp) and isinstance(test.op, ast.Not):
             v = ev(test.operand)
             return None if v is None else (not v)
